@@ -30,7 +30,8 @@ class Obligation:
 class LoopSpec:
     """Loop contract keyed by loop ordinal inside the function."""
 
-    def __init__(self, invariant=None, variant=None, havoc_heap=(), bounded=None, index=None):
+    def __init__(self, invariant=None, variant=None, havoc_heap=(), bounded=None, index=None, elem=None):
+        self.elem = elem  # fn(st, U term) -> Val: typed view of a sequence element
         self.invariant = invariant  # fn(env: LoopEnv) -> z3 Bool
         self.variant = variant  # fn(env) -> z3 Int
         self.havoc_heap = havoc_heap  # list of (VRef, field|None) that the body may modify
@@ -644,7 +645,7 @@ class ExecBase:
             if kind == "iter":
                 starts = self.assign(node.target, iter_items[id(s)], s)
             if kind == "for":
-                item = unbox(seq[idx])
+                item = spec.elem(s, seq[idx]) if getattr(spec, "elem", None) else unbox(seq[idx])
                 if it_ref is not None:
                     s.deref(it_ref).pos = idx + 1
                 starts = self.assign(node.target, item, s)
